@@ -1,7 +1,7 @@
 (* C04 - amino-acid annotation equals translation of the affected codon before and after.
    Only statements, closed by `exact`, and their assumptions. *)
 From VV Require Import Model.Base Model.Pattern Model.Seq Model.CodonTable Model.Transcript Model.Mutators
-  Spec.CodonSpec Proofs.CodonProofs Proofs.AnnotProofs Proofs.AnnotWalkProofs.
+  Spec.CodonSpec Proofs.CodonProofs Proofs.AnnotProofs Proofs.AnnotWalkProofs Generated.KernelsAnnot Proofs.KernelAnnotEquiv.
 
 (* SNV rows: the annotated codon is the triplet of the extended coding sequence (prefix + region + suffix) that
    holds the mutated base, ref_aa / alt_aa are its translations before and after the substitution *)
@@ -90,6 +90,12 @@ Example C04_three_exon_codon :
   end.
 Proof. vm_compute. auto. Qed.
 
+(* translation validation: get_codon_range_offset (the codon of a position of the extended coding sequence) as translated from
+   the source is the slice the model of annotate uses *)
+Theorem C04_codon_range_offset_matches_source : forall pos r co, 0 <= pos -> k_codon_range_offset pos = Ok (r, co) ->
+  co = pos mod 3 /\ rs r = pos - pos mod 3 /\ re r = pos - pos mod 3 + 2.
+Proof. exact k_codon_range_offset_spec. Qed.
+
 Print Assumptions C04_annot_snv_correct.
 Print Assumptions C04_annot_codon_correct.
 Print Assumptions C04_ext_positions_are_codon_walk.
@@ -99,3 +105,4 @@ Print Assumptions C04_extension_lengths_in_frame.
 Print Assumptions C04_mut_type_rule.
 Print Assumptions C04_noncoding_rows_unannotated.
 Print Assumptions C04_deletion_rows_unannotated.
+Print Assumptions C04_codon_range_offset_matches_source.
